@@ -169,7 +169,9 @@ def main(run):
                 # (seed 67: 0.107, 0.0011, 0.0027.)  The first-order promise of the finest grid is 2 (L h + M h / sigma) with
                 # h / q = ln(q_hi / q_lo) / n ~ 1.1e-3 and sigma = 0.1 q: about 2e-2 relative; demanded: inside that promise and
                 # at most half of the largest error.
-                if not (errs[-1] <= 1e-4 or (errs[-1] <= 2e-2 and errs[-1] <= 0.5 * max(errs) + 1e-9)):
+                # (where the exact value is close to zero the relative error is large on every grid and still falls eightfold
+                # per refinement - seed 47: 1.36, 0.17, 0.022 -: inside the promise OR still falling at the first-order rate)
+                if not (errs[-1] <= 1e-4 or ((errs[-1] <= 2e-2 or errs[-1] <= 0.25 * errs[1]) and errs[-1] <= 0.5 * max(errs) + 1e-9)):
                     run.add(Finding("C04:unsorted:%s:%s" % (kind, fname), "%s smearing of %s with the data stored %s: relative errors %s on grids of 300/1200/4800 points do not converge to the documented integral" % (
                         kind, fname, order, errs), desc))
                 else:
